@@ -60,7 +60,19 @@ class TakeLast(Blockwise):
             if a.ndim == 1 and (a.empty or a.isna().all()):
                 return None
             a = a.ffill()
+        if a.ndim == 2:
+            # Keep a one-row frame. Squeezing the row into a Series would cast
+            # columns of different dtypes to a common dtype (e.g. int64 -> float64)
+            return None if a.empty else a.tail(n=1).reset_index(drop=True)
         return a.tail(n=1).squeeze()
+
+
+def _finalize_partition(aggregator, x, previous):
+    if previous is not None and previous.ndim == 2:
+        # broadcast the one-row frame of previous results along the index of x
+        previous = previous.take([0] * len(x))
+        previous.index = x.index
+    return aggregator(x, previous)
 
 
 class CumulativeFinalize(Expr):
@@ -91,6 +103,7 @@ class CumulativeFinalize(Expr):
                     (previous_partitions._name, i - 1),
                 )
             dsk[(self._name, i)] = (
+                _finalize_partition,
                 self.aggregator,
                 (self.frame._name, i),
                 (intermediate_name, i),
